@@ -320,7 +320,7 @@ impl ComparisonExpr {
 
         let (op, input) = if lhs_type == Type::Bool {
             (ComparisonOpExpr::IsTrue, input)
-        } else if lhs_type.next() == Some(Type::Bool) {
+        } else if lhs_type == Type::Array(Type::Bool.into()) {
             // Invalid because this would produce an Array(Array(Bool))
             // which cannot be coerced to an Array(Bool)
             if lhs.map_each_count() > 0 {
